@@ -50,7 +50,14 @@ fn $name() {
                 consumed += 1 + n;
                 drop(g);
             }
-            Err(RecvError::Closed) => { assert!(consumed <= len, "C10: Closed after consuming more than was sent"); break; }
+            Err(RecvError::Closed) => {
+                assert!(consumed <= len, "C10: Closed after consuming more than was sent");
+                // C07 completeness: the stream may end inside a frame, but not with a complete frame still undelivered
+                // (capacity of the 3-byte receive buffer: 2 items)
+                let pending = consumed < len && (data[consumed] as usize) <= 2 && consumed + 1 + (data[consumed] as usize) <= len;
+                assert!(!pending, "C07: Closed although a complete message that was sent has not been delivered");
+                break;
+            }
             Err(RecvError::Parse(_)) => { break; }
             Err(RecvError::Read(_)) => { break; }
         }
@@ -214,5 +221,9 @@ fn c08_async_recv_arbitrary_bytes() {
         let mut i = 0;
         while i < N { if i < n { assert!(g.as_slice()[i] == data[1 + i], "C08,C10: message content differs from the stream"); } i += 1; }
         drop(g);
+    } else if let Err(flatty_io::RecvError::Closed) = res {
+        // completeness: the stream may end inside a frame, but not with a complete first frame undelivered
+        let pending = 0 < len && (data[0] as usize) <= 2 && 1 + (data[0] as usize) <= len;
+        assert!(!pending, "C08: Closed although a complete message that was sent has not been delivered");
     }
 }
